@@ -637,8 +637,9 @@ func (r *PipelineRunner) resolveScheduleAction(pipeline string, ignoreStartDelay
 }
 
 func (r *PipelineRunner) resolveDequeueJobAction(job *PipelineJob) scheduleAction {
-	// Start the job if it had a start delay but the timer finished
-	ignoreStartDelay := job.StartDelay > 0 && job.startTimer == nil
+	// The start delay of a queued job is handled by its own timer (see startJobsOnWaitList),
+	// the start delay of the current definition applies only to newly scheduled jobs
+	ignoreStartDelay := job.startTimer == nil
 	return r.resolveScheduleAction(job.Pipeline, ignoreStartDelay)
 }
 
